@@ -189,10 +189,11 @@ def run_alg(run, name, timeout):
         break
     run.witness(name + ':reach', 'reach', paths > 0, '%d feasible paths' % paths)
   except Exception as e:   # pylint: disable=broad-except
-    if jh.engine_fault(e):
-      raise
-    run.ob(name + ':raises', 'sat', detail=repr(e)[:300])
-    viol.append(('raises %r' % (e,), None, None))
+    if jh.engine_fault(e):      # the engine cannot carry this state: this algorithm is inconclusive, the others and the concrete clauses still run
+      run.ob(name + ':trace', 'error', detail=repr(e)[:300])
+    else:
+      run.ob(name + ':raises', 'sat', detail=repr(e)[:300])
+      viol.append(('raises %r' % (e,), None, None))
   finally:
     jax.device_get = real_dg
   # donation dataflow on the IR traced with jit enabled + concrete confirmation
